@@ -18,6 +18,13 @@ TRUSTED_BASE = [
     "'repeat', offsets beyond the output, cut elements, wrong final length are errors); every (block, encoding) pair the real writer produced at "
     "any compression level is checked against it in the model driver (when cheap: chunk <= 8 KiB or incompressible) and the Go-side strict decoder "
     "(harness strictSnappyDecode, used for all sizes and all four levels, framed and unframed) is compared with it on the 'sb' cases",
+    "codec OPTIONS of the gzip / lz4 / zstd wrappers (gzip Level -3,-2,-1,1,6,9; zstd Level -5..23; the deprecated constructors of /repo/{gzip,lz4,snappy,"
+    "zstd}) and multi-member / multi-frame / optional-field inputs (gzip members with name/comment/extra fields, closed-and-reset writers; lz4 frames with "
+    "and without content checksum, block checksums, content size, four block sizes; zstd multi-frame streams with skippable frames, CRC on/off, window "
+    "sizes) do not appear in Model/Xerial.v (only snappy's framing and level do): these wrappers are thin shells over third-party streams which the model "
+    "treats as oracles, and that part of C16 is tied dynamically by the rt / hist / conc families against the format libraries used directly",
+    "lz4: several concatenated frames are NOT exercised — pierrec/lz4 v4.1.15, the only lz4 implementation available offline, itself stops after the first "
+    "frame when used directly, so there is no oracle for them",
     "coq/Spec/Xerial.v: the xerial stream format transcribed by hand from the format description (fidelity to org.xerial.snappy is trusted; "
     "cross-checked at run time against a hand-written Go de-framer and the vendored go-xerial-snappy)",
     "xerialWriter.output / xerialReader.input capacities and the encode==nil / decode==nil branches are not modelled (scratch space; unreachable via snappy.go)",
@@ -92,7 +99,7 @@ def correspondence(ctx):
     if os.path.isdir(cdir):
         for f in sorted(os.listdir(cdir)):
             texts.append(open(os.path.join(cdir, f)).read())
-    rc, out, err, dt = L.sh([gobin, "-seed", str(ctx.seed), "-nx", str(nx), "-nrt", str(ctx.scale(300, 5000)),
+    rc, out, err, dt = L.sh([gobin, "-seed", str(ctx.seed), "-nx", str(nx), "-nrt", str(ctx.scale(450, 6000)),
                              "-nhist", str(ctx.scale(60, 1000)), "-nconc", str(ctx.scale(10, 100)),
                              "-npool", str(ctx.scale(30, 500)), "-nsb", str(ctx.scale(200, 3000))], timeout=3000)
     if rc != 0:
@@ -135,7 +142,9 @@ def correspondence(ctx):
                      "blocks, go-xerial-snappy, raw blocks from three snappy encoders.  rt/hist/conc (Go-side predicates on gzip, snappy framed+unframed, "
                      "lz4, zstd and every snappy compression level framed+unframed via the public API — writers driven by mixes of Write and io.Copy, readers by "
                      "Reads / io.Copy / Reads then io.Copy — against the format libraries and the strict snappy decoder in both directions, payloads "
-                     "(random, zeros, repetitive, text, JSON-like) up to 300 KB; histories with truncated/"
+                     "(random, zeros, repetitive, text, JSON-like) up to 300 KB; codec options as separate codecs (gzip levels, zstd levels -5..23, deprecated "
+                     "constructors); reference-encoded inputs in each format's legal variety (gzip 1/2/4/many members with optional header fields, lz4 frame "
+                     "options, zstd multi-frame + skippable frames + CRC/window options, xerial with arbitrary blocks); histories with truncated/"
                      "corrupt/abandoned streams and failing sinks before a good stream; 2-15 goroutines on one codec value).  sb: the strict snappy decoder of the harness vs coq/Spec/SnappyBlock.v on blocks of seven "
                      "snappy/S2 encoders, also corrupted and cut.  mix: regression cases of F32-F34 (lz4 Write then io.Copy; lz4 / gzip Read then io.Copy), which must succeed.  proto: protocol.RecordSet v1/v2 written with each codec from keys/values that are protocol.Bytes with and without a WriteTo method (the protocol-level witness of F32), read back and compared.  pool: random "
                      "New/Use/Close sequences per codec side with object identity observed.  Every case has a non-empty feature vector; "
